@@ -4,7 +4,11 @@ import (
 	"bytes"
 	"encoding/base64"
 	"fmt"
+	"github.com/yuin/goldmark"
+	"github.com/yuin/goldmark/extension"
+	"github.com/yuin/goldmark/renderer/html"
 	"math/rand"
+	"regexp"
 	"strings"
 
 	"verif/cfg"
@@ -271,6 +275,32 @@ func runC11(c *core.Ctx) {
 	r := c.Rng
 	gfmA := cfg.Spec{Only: []string{cfg.SLinkify, cfg.STable, cfg.SStrikethrough, cfg.STaskList}}
 	gfmB := cfg.Spec{Only: []string{cfg.SGFM}}
+	// neighbours: other instances in the same process that are built from the SAME extension values (extension.Linkify,
+	// extension.GFM) but configured through the option route - Linkify told, by parser options, to link issue numbers
+	// ("#123", "GH-7": text without ':', '@' or 'www.'). They convert a document now and again during the run. What they were
+	// told is their own business: the instances under comparison must go on treating "#123" as text.
+	nbRe := regexp.MustCompile(`^(?:#[0-9]+|GH-[0-9]+)`)
+	neighbours := []goldmark.Markdown{
+		goldmark.New(goldmark.WithExtensions(extension.Linkify), goldmark.WithParserOptions(extension.WithLinkifyAllowedProtocols([]string{"#", "GH-"}), extension.WithLinkifyURLRegexp(nbRe))),
+		goldmark.New(goldmark.WithExtensions(extension.GFM), goldmark.WithParserOptions(extension.WithLinkifyAllowedProtocols([]string{"#", "GH-"}), extension.WithLinkifyURLRegexp(nbRe)),
+			goldmark.WithRendererOptions(html.WithXHTML(), html.WithHardWraps(), extension.WithTableCellAlignMethod(extension.TableCellAlignAttribute))),
+	}
+	nbDoc := []byte("see #123 and GH-7\nnext line\n\n- [x] t\n\n| a |\n|:-:|\n| b |\n\n~~s~~\n")
+	neighbourTurn := func() {
+		for _, nb := range neighbours {
+			_ = convert(nb, nbDoc)
+			c.Eval()
+		}
+		c.Count("conversions_by_neighbour_instances_sharing_extension_values", int64(len(neighbours)))
+	}
+	neighbourTurn()
+	issueDocs := []string{"see #123 now", "#1 first", "a GH-7 b\n#22\n", "(#5) *#6* _GH-8_", "# h #9\n\n- #10\n- GH-11\n"}
+	for _, d := range issueDocs {
+		for _, e := range []string{cfg.SLinkify} {
+			c11Check(c, pool, e, cfg.Spec{Only: []string{}}, cfg.Spec{Only: []string{e}}, []byte(d))
+		}
+		c11Check(c, pool, "gfm", gfmA, gfmB, []byte(d))
+	}
 	// 0. regression seeds (witnesses of the two repaired defects and neighbours)
 	if c.Shard == 0 {
 		for _, s := range c11Seeds {
@@ -360,6 +390,10 @@ func runC11(c *core.Ctx) {
 	// 2. random documents
 	n2 := c.PerShard(c.N(700000, 30000000))
 	for i := 0; i < n2; i++ {
+		if i%20000 == 7 {
+			neighbourTurn()
+			c11Check(c, pool, cfg.SLinkify, cfg.Spec{Only: []string{}}, cfg.Spec{Only: []string{cfg.SLinkify}}, []byte(issueDocs[(i/20000)%len(issueDocs)]))
+		}
 		var d []byte
 		switch i % 7 {
 		case 5:
